@@ -148,6 +148,8 @@ Fixpoint add_node (fuel : nat) (n : tree) (path : str) (wkeys : list str) (in_st
                           | None => (force_bt n, Node name [] None None true false [] [] false)
                           end in
           if negb (str_eqb path1 (t_path cc)) then inr EInvalidPath
+          else if negb (is_nil (t_keys cc)) && negb (list_eqb str_eqb (t_keys cc) (wkeys ++ [name]))
+          then inr EInvalidPath   (* fix: commit 20f92b3 (C03-F3): "wildcard keys differ" *)
           else
             match leaf (set_keys (wkeys ++ [name]) cc) with
             | inl cc' => inl (set_catch (Some cc') n1)
